@@ -1,3 +1,183 @@
-import NfcVerif.Model.NfcDep
+import NfcVerif.Lemmas.NfcDep
+/-!
+# C04 - NFC-DEP delivers each payload exactly once, intact, or reports failure
+
+Model: `Model/NfcDep.lean` (Initiator and Target of `nfc/dep.py` composed with a
+fault script, `run`).  Proofs: `Lemmas/NfcDep.lean`.
+
+Proved here, for every fault script of any length, every fuel, every payload list:
+
+* `dep_frame_bound`            no frame exceeds the LR announced by its receiver
+* `dep_error_kind_initiator`   `Initiator.exchange` fails only with CommunicationError classes,
+                               `deactivate` never raises (also against an arbitrary peer:
+                               `dep_error_kind_initiator_any_peer`)
+* `dep_error_kind_target`      `Target.exchange` raises only ProtocolError
+* `dep_retransmission_idempotent`  a retransmission, NAK, ATN or corrupted frame never changes
+                               the Target (nothing is accepted or delivered twice)
+* `dep_codec_roundtrip`        the PDU-level air is justified: decode (encode p) = p
+* counter-examples for the code as found (F20, F26, F27, F40) and the matching
+  witnesses for the repaired behaviour.
+
+NOT proved (stated as `ExactlyOnceStatement` / `SingleFaultStatement` below): the
+prefix property of the composed system and recovery from every isolated fault.
+Both are checked only by the correspondence runs and by the oracle on the real code.
+-/
 namespace NfcVerif.C04
+open NfcVerif NfcVerif.NfcDep
+
+/-- configuration as computed by the two `activate()` methods -/
+def cAct (v : Variant) (b106 : Bool) (lri lrt : Nat) (did nad : Option Nat) : Cfg :=
+  ⟨b106, did, nad, tDidOf did, iMiu lrt did nad, tMiu v.f20 lri (tDidOf did), v⟩
+
+/-- small information units, for short witnesses -/
+def cSmall (v : Variant) (did : Option Nat) : Cfg := ⟨true, did, none, did, 4, 4, v⟩
+
+/-! ## Frame sizes -/
+
+/-- Every frame that crosses the air in any run - any fault script, any number of
+exchanges, chaining, retransmissions, ATN, NAK, RTOX, DSL/RLS - carries at most
+`LRt` transport bytes when sent by the Initiator and at most `LRi` when sent by the
+Target; for all `lri`, `lrt`, DID, NAD, both framings.  (Target MIU as repaired, F20.) -/
+theorem dep_frame_bound (c : Cfg) (lri lrt : Nat)
+    (hi : c.imiu = iMiu lrt c.idid c.inad) (ht : c.tmiu = tMiu true lri c.tdid)
+    (fuel : Nat) (script : List Fault) (rel : Nat) (pi pt : List Bytes) :
+    ∀ e ∈ (run c fuel script rel pi pt).wire,
+      (e.req = true → e.pdu.tlen ≤ lrTable lrt) ∧ (e.req = false → e.pdu.tlen ≤ lrTable lri) := by
+  have b1 := lrTable_bounds lrt
+  have b2 := lrTable_bounds lri
+  have f1 := flag_le c.idid
+  have f2 := flag_le c.inad
+  have f3 := flag_le c.tdid
+  exact (run_inv c (lrTable lrt) (lrTable lri) b1.2 (by omega)
+    (by rw [hi]; unfold iMiu; omega) (by rw [ht]; unfold tMiu; simp; omega) fuel script rel pi pt).1
+
+example : (cAct .repaired true 0 2 (some 3) (some 5)).tmiu = tMiu true 0 (cAct .repaired true 0 2 (some 3) (some 5)).tdid := rfl
+
+/-- As found (F20) the Target ignores the DID byte: 65 transport bytes although LRi = 64. -/
+theorem dep_frame_bound_target_counterexample :
+    ∃ e ∈ (run (cAct .asFound true 0 0 (some 3) none) 50 [] 0 [[1]] [List.replicate 61 0]).wire,
+      e.req = false ∧ e.pdu.tlen > lrTable 0 := by
+  decide +kernel
+
+/-! ## Error kinds -/
+
+/-- In any run with non-empty payloads every exception that leaves
+`Initiator.exchange` is a `CommunicationError` class (`isComm`: Timeout-,
+Transmission-, ProtocolError ...; `outOfFuel` is the model's loop bound, not a
+Python exception) and `Initiator.deactivate` raises nothing. -/
+theorem dep_error_kind_initiator (c : Cfg)
+    (hm : c.imiu + 3 + flag c.idid 1 + flag c.inad 1 ≤ 254) (ht : c.tmiu + 3 + flag c.tdid 1 ≤ 254)
+    (fuel : Nat) (script : List Fault) (rel : Nat) (pi pt : List Bytes) (hp : ∀ p ∈ pi, p ≠ []) :
+    (∀ e, (run c fuel script rel pi pt).errI = some e → isComm e = true ∨ e = .outOfFuel)
+    ∧ (run c fuel script rel pi pt).errD = none := by
+  have h := run_inv c 254 254 (by omega) (by omega) hm ht fuel script rel pi pt
+  exact ⟨fun e he => h.2.1 hp e he, h.2.2⟩
+
+example : (cAct .repaired true 3 3 (some 3) (some 5)).imiu + 3 + flag (some 3) 1 + flag (some 5) 1 ≤ 254 := by decide
+
+/-- The same for the Initiator against an ARBITRARY peer (any responder state machine
+`P` with an invariant `Qp`), provided the peer never sends a timeout extension
+without its data byte (such a frame makes `res.data[0]` raise IndexError - a
+malformed-input defect that belongs to property C07). -/
+theorem dep_error_kind_initiator_any_peer {σ : Type} (P : Peer σ) (c : Cfg) (Qp : σ → Prop)
+    (hrx : ∀ s rx, Qp s → Qp (P.rx s rx).1 ∧
+      ∀ p, (P.rx s rx).2 = some p → ∀ pni did nad, p ≠ .dep fTOX pni did nad [])
+    (hm : c.imiu + 3 + flag c.idid 1 + flag c.inad 1 ≤ 254)
+    (fuel : Nat) (script : List Fault) (s0 : σ) (hs : Qp s0) (pni : Nat) (p : Bytes) (hp : p ≠ []) :
+    Safe (fun e => isComm e = true ∨ e = .outOfFuel)
+      (exchange P c fuel { script := script, peer := s0, expired := false, wire := [] } pni p).2.2 := by
+  let S := mkSpec P c Qp (fun p => ∀ pni did nad, p ≠ .dep fTOX pni did nad []) 254 (by omega) (by omega) hm hrx
+    (fun pni did nad h => h pni did nad rfl)
+  exact (exchange_spec S fuel _ pni p ⟨hs, fun e h => by cases h⟩).2 hp
+
+example : ∀ s rx, (fun _ : List (Option Pdu) => True) s →
+    (fun _ : List (Option Pdu) => True) ((⟨fun s _ => (s, none)⟩ : Peer (List (Option Pdu))).rx s rx).1 ∧
+    ∀ p, ((⟨fun s _ => (s, none)⟩ : Peer (List (Option Pdu))).rx s rx).2 = some p →
+      ∀ pni did nad, p ≠ .dep fTOX pni did nad [] := by
+  intro s rx _; exact ⟨trivial, fun p h => by cases h⟩
+
+/-- `Target.exchange` raises nothing but `ProtocolError` (it may also return None after
+DSL/RLS, or wait): for every run with non-empty Target payloads, with the first-exchange
+deselect handled as repaired (F40) and an information unit that fits the length byte. -/
+theorem dep_error_kind_target (c : Cfg)
+    (hm : c.imiu + 3 + flag c.idid 1 + flag c.inad 1 ≤ 254) (ht : c.tmiu + 3 + flag c.tdid 1 ≤ 254)
+    (hf : c.v.f40 = true)
+    (fuel : Nat) (script : List Fault) (rel : Nat) (pi pt : List Bytes) (hpt : ∀ p ∈ pt, p ≠ []) :
+    ∀ e, (run c fuel script rel pi pt).t.status = .raised e → e = .protocol :=
+  run_target_err c hm ht hf fuel script rel pi pt hpt
+
+example : (cAct .repaired true 3 3 (some 3) none).tmiu + 3 + flag (cAct .repaired true 3 3 (some 3) none).tdid 1 ≤ 254 := by decide
+
+/-- As found: (F40) the first request is lost, the Initiator's deadline expires, it releases the
+Target, and the first `Target.exchange` raises AttributeError; (F20) with LRi = 254 and a DID the
+Target's frame needs a length byte of 256 and `struct.error` leaves `Target.exchange`. -/
+theorem dep_error_kind_target_counterexample :
+    (run (cSmall .asFound none) 50 [.l, .d, .d, .x] 2 [[1, 2]] [[0x81]]).t.status = .raised .attr ∧
+    (run (cAct .asFound true 3 3 (some 3) none) 50 [] 0 [[1]] [List.replicate 251 0]).t.status = .raised .struct := by
+  decide +kernel
+
+/-- the same inputs on the repaired behaviour: None after the release; the payload is chained -/
+example : (run (cSmall .repaired none) 50 [.l, .d, .d, .x] 2 [[1, 2]] [[0x81]]).t.status = .retNone ∧
+    (run (cAct .repaired true 3 3 (some 3) none) 50 [] 0 [[1]] [List.replicate 251 0]).gotI = [List.replicate 251 0] := by
+  decide +kernel
+
+/-! ## Nothing is accepted twice -/
+
+/-- Once the Target has left `listen`, a request with the PNI it accepted last, a NAK, an ATN
+or a corrupted frame leaves its whole state (PNI, reassembly buffer, delivered payloads,
+pending response) unchanged: retransmissions caused by any fault never deliver a payload twice. -/
+theorem dep_retransmission_idempotent (c : Cfg) (t : TState) (hl : t.loc ≠ .listen) (fmt pni : Nat)
+    (did nad : Option Nat) (data : Bytes)
+    (h : fmt = fATN ∨ fmt = fNAK ∨ (fmt ≠ fTOX ∧ t.pni = some pni)) :
+    (tRx c t (.frame (.dep fmt pni did nad data))).1 = t ∧ (tRx c t .corrupt).1 = t :=
+  tRx_idem c t hl fmt pni did nad data h
+
+example : (⟨some 2, .receiving [1], none, [], [], .running⟩ : TState).loc ≠ .listen := by decide
+
+/-! ## Codec -/
+
+/-- every DEP/DSL/RLS PDU with in-range header fields that `encode_frame` accepts is decoded
+by the receiver's `decode_frame` to the same PDU (both roles, both framings): the state
+machines may exchange PDUs instead of bytes. -/
+theorem dep_codec_roundtrip (b106 req : Bool) (p : Pdu) (hw : p.WF) (f : Bytes)
+    (h : encodeFrame b106 req p = .ok f) : decodeFrame b106 req f = .ok p :=
+  codec_roundtrip b106 req p hw f h
+
+example : (Pdu.dep fMORE 3 (some 3) (some 5) [1, 2, 3]).WF ∧
+    encodeFrame true true (.dep fMORE 3 (some 3) (some 5) [1, 2, 3]) = .ok [0xF0, 9, 0xD4, 6, 0x1F, 3, 5, 1, 2, 3] :=
+  ⟨⟨by decide, by decide⟩, by decide⟩
+
+/-! ## Exactly once / recovery: statements, counter-examples as found -/
+
+/-- FULL STATEMENT (not proved): what each side's `exchange()` returned is a prefix of what the
+other side passed in. -/
+def ExactlyOnceStatement : Prop :=
+  ∀ (c : Cfg) (fuel : Nat) (script : List Fault) (rel : Nat) (pi pt : List Bytes),
+    (run c fuel script rel pi pt).t.got <+: pi ∧ (run c fuel script rel pi pt).gotI <+: pt
+
+/-- FULL STATEMENT (not proved): faults at least six frames apart and no expiry are all recovered. -/
+def SingleFaultStatement (v : Variant) : Prop :=
+  ∀ (did : Option Nat) (script : List Fault) (pi pt : List Bytes),
+    (∀ i j, i < j → j < script.length → script[i]? ≠ some .d → script[j]? ≠ some .d → i + 6 < j) →
+    .x ∉ script → pi.length = pt.length → (∀ p ∈ pi ++ pt, p ≠ []) →
+    (run (cSmall v did) (script.length + 1000) script 0 pi pt).errI = none
+
+/-- As found (F26) one lost frame is never recovered when a DID is used ... -/
+theorem dep_no_recovery_with_did_counterexample : ¬ SingleFaultStatement .asFound := by
+  intro h
+  have := h (some 3) [.l] [[1, 2]] [[0x81]] (by intro i j hij hj; simp at hj; omega) (by decide) rfl (by decide)
+  revert this
+  decide +kernel
+
+/-- ... and (F27) a corrupted ACK during Initiator chaining is fatal even without DID. -/
+theorem dep_ack_retransmission_counterexample :
+    (run (cSmall .asFound none) 50 [.d, .c] 0 [[1, 2, 3, 4, 5, 6]] [[0x81]]).errI = some .protocol := by
+  decide +kernel
+
+/-- the same scripts on the repaired behaviour: recovered, delivered once and intact -/
+example : (run (cSmall .repaired (some 3)) 50 [.l] 0 [[1, 2]] [[0x81]]).errI = none ∧
+    (run (cSmall .repaired none) 50 [.d, .c] 0 [[1, 2, 3, 4, 5, 6]] [[0x81]]).t.got = [[1, 2, 3, 4, 5, 6]] ∧
+    (run (cSmall .repaired none) 50 [.d, .c] 0 [[1, 2, 3, 4, 5, 6]] [[0x81]]).gotI = [[0x81]] := by
+  decide +kernel
+
 end NfcVerif.C04
